@@ -20,7 +20,7 @@ RULE = (
     "distinct by (units, direction, carry class, boundary class of the base, TIMEZONE class, TO_TIMEZONE class, base source, tick policy)"
 )
 ASSUMPTIONS = [
-    "year/month steps: total months applied at once with clamping to the last valid day; clamping year and month steps one after the other (either order) is accepted too (the statement does not fix the order)",
+    "several units add up: years/decades/months are one shift of 12*y+m months clamped once to the last valid day, then weeks/days/sub-day units are added as an exact timedelta, whatever the order of the units in the phrase",
     "when TIMEZONE (or the process zone for 'local') has a UTC-offset change between base and result, only the wall-clock result without TO_TIMEZONE/awareness is compared (wall-clock vs instant arithmetic differ by the shift and the statement does not pick one)",
     "under a ticking clock the result must be the oracle's answer for one of the instants the call read",
     "bare counts without ago/in are not generated (the statement defines only the directed forms)",
@@ -71,7 +71,8 @@ def gen_phrase(rng):
         return text, dict(units), sign
     k = rng.choice([1, 1, 1, 2, 2, 3])
     us = rng.sample(UNITS, k)
-    us.sort(key=UNITS.index, reverse=True)
+    if rng.random() < 0.6:
+        us.sort(key=UNITS.index, reverse=True)  # else: phrase order as drawn (e.g. "1 day 1 month ago")
     units = {}
     parts = []
     for u in us:
